@@ -51,7 +51,7 @@ func Specs() map[string]*PropSpec {
 		Rules:       []RuleRef{registeredRule("sadd", "srem", "sismember", "scard", "smembers", "smove", "spop", "srandmember", "sunion", "sinter", "sdiff", "sunionstore", "sinterstore", "sdiffstore"), rR20d, rR26, rR20b, rR20c, rR25, rR4, rR15, rR1, rR7, rR29}})
 	add(&PropSpec{ID: "C12", Files: []string{"memdb/sorted_set.go", "memdb/sorted_set_struct.go", "memdb/btree.go"},
 		Explanation: "Only the structural fringe of the sorted-set property is decided: key/member identity (R9), nil-after-check (R2), bounds (R1), a reply on every path (R7), lock discipline (R15), rejected commands change nothing (R27), emptied key deleted (R20b), size bookkeeping not double-counted by recursion and a comparator on the raw scores (R20t), commands registered (R0). BST order, AVL balance, size/index agreement, rank and score-mate handling are inductive shape invariants and are NOT decided by this family. Option values an executor parses into a local record are read afterwards (R29).",
-		Rules:       []RuleRef{registeredRule("zadd", "zrem", "zrange", "zrank"), rR9, rR2, rR1, rR7, rR15, rR27, rR20b, rR20t, rR29}})
+		Rules:       []RuleRef{registeredRule("zadd", "zrem", "zrange", "zrank"), rR9, rR2, rR1, rR7, rR15, rR27, rR20b, rR20t, rR29, rR20v, rR20z}})
 	add(&PropSpec{ID: "C13", Files: []string{"memdb/"},
 		Explanation: "Static deadlock-freedom argument for the stripe locks over all schedules and key sets: pairing on all exits (R14p); the lock-class graph is acyclic, no stripe is acquired (directly or through a callee such as CheckTTL) while one is held, nothing blocks under a stripe (R14o); the *Multi helpers acquire sorted, de-duplicated stripe positions (R15m). Atomicity, structural part: every access of the multi-key commands lies inside one LockMulti hold covering its key (R15, R15r) and aliasing keys are safe (R25). Observed atomicity of histories is not decided.",
 		Rules:       []RuleRef{rR14pair, rR14order, rR15m, rR15, rR15r, rR25}})
